@@ -20,12 +20,16 @@ WHAT IT DOES (theorems by kernel computation on images regenerated from the curr
  2. Blocks are packed into IMAGES per (namespace, w).  Every block is first assembled alone (worker stl_asm, the
     CURRENT assembler + stl of fw.REPO): this isolates an assembly failure to its macro and measures sizes; then the
     images are assembled and read back with the real Reader.  Label addresses come from the debug-label file.
+    (w = 16: one image per block; a block that does not fit the 2^16-bit address space is recorded as such.)
 
  3. Every block is run on the REAL engines (worker stl_run: fast + rebuilt native, a few on featured) on sampled
-    operands, including the larger sizes (n = 4, 8, 16 ...) that are never enumerated.  Operands are written through
-    the public device hook; afterwards EVERY word of the memory is compared with `image patched with the Python
-    spec's result` modulo the scratch masks (the frame equation on the real engine).  Reported as tests.  The op
-    counts measured here size the Coq evaluation budget and the sharding.
+    operands.  Operands are written through the public device hook; afterwards EVERY word of the memory is compared
+    with `image patched with the Python spec's result` modulo the scratch masks (the frame equation on the real
+    engine).  Reported as tests.  The op counts measured here size the Coq evaluation budget and the sharding.
+    Sample-only blocks (never theorems): the `sample` instances of the table (n = 4, 8, 16 ...), the `deep` instances
+    (enumerable but over the thorough budget; enumerated only with FJVERIF_STL_DEEP=1) and the SIZE SWEEP: every macro
+    with a `sweep` function is instantiated at sizes drawn from the whole range 1..Config.sweep_max (see stl_specs.
+    SIZE_CRITICAL) - this is what notices a loop counter that is wrong only for some sizes.
 
  4. coq/Gen/Img_<image>.v (image + block descriptors), coq/Gen/StlP_<image>_<j>.v (pieces: `forallb check_block
     (enum_dom ranges) = true` by vm_compute, lifted with StlProps.blocks_by_enumeration), coq/Gen/StlT_<image>.v
@@ -34,6 +38,8 @@ WHAT IT DOES (theorems by kernel computation on images regenerated from the curr
     Python specs against StlSpec.v and op-count equality machine-vs-engine on the sampled operands) are generated
     and compiled by parallel coqc processes.  Operands are patched INTO the image by StlSpec.start_mem, the run
     starts at op 0 whose jump word is redirected to the block (exactly what the real-engine worker does).
+    <image> = <prop>p<pid>_w<w>_<i>: concurrent runs cannot clobber each other; the files are removed at exit (kept with
+    FJVERIF_KEEP_GEN=1) and leftovers of dead processes are removed by the next run.
 
  5. A piece that does not compile is searched for its first failing operands (Coq `find`), the model's observation is
     printed, and the operand is CONFIRMED ON THE REAL ENGINE before it is reported: engine violates the spec ->
@@ -46,8 +52,8 @@ label -> (ops, mask)), add the specs to StlSpec.v + stl_specs.SPECS, and call ru
 ADDED FOR C08 (builder of C08, backwards compatible): block_text and resolve_block first look for the methods
 `ptr_text` / `ptr_resolve` on the block object (stl_ptr.PBlock defines them; plain Blocks are unaffected).  Everything
 else of C08 (explicit-list domains, pointer-cell consistency clause, its own run_property) lives in stl_ptr.py.
-Input-consuming macros need `init ... input` in StlRun.check_block (currently the input is empty) - extend
-check_block with an input parameter, the machinery here passes operands only through memory.
+Input/output macros (C09) live in stl_io.py / StlIO*.v (its builder): check_block here runs with an empty input.
+Development aids: FJVERIF_STL_ONLY=<regex on table names>, FJVERIF_STL_DRY=1 (cost table only), FJVERIF_KEEP_GEN=1.
 """
 import atexit
 import dataclasses
